@@ -15,40 +15,60 @@ PROP = "C19"
 
 WALK3 = [(1, 0, 0), (2, 0, 0), (2, 1, 1), (1, 1, 1), (2, 2, 2), (2, 3, 2), (2, 2, 3), (2, 3, 3), (1, 0, 1)]
 
+SIX_SEEDED = [
+    (1, 0, 0), (2, 0, 0), (3, 0, 0), (2, 1, 0), (3, 2, 0), (2, 0, 1), (3, 0, 2), (2, 1, 1), (3, 2, 2),
+    (1, 1, 0), (2, 2, 0), (3, 4, 0), (2, 3, 0), (3, 6, 0),
+]
+
 
 def configs(tier):
     cfgs = []
     S = stages
-    # walk: every live parent of the pyramid as the failing item
-    cfgs.append(S.Walk(kind="generic", depth=2, W=2, fail_item=(1, 0, 0)))
-    cfgs.append(S.Walk(kind="generic", depth=1, W=2, fail_item=(0, 0, 0)))
+    EX = ["runtime", "oserror", "valueerror"]
+    k = [0]
+
+    def ex():
+        # rotate through the exception families so that every stage sees each of them
+        k[0] += 1
+        return EX[k[0] % 3]
+
+    cfgs.append(S.Walk(kind="generic", depth=2, W=2, fail_item=(1, 0, 0), fail_exc="oserror"))
+    cfgs.append(S.Walk(kind="generic", depth=1, W=2, fail_item=(0, 0, 0), fail_exc="valueerror"))
     # three live parents A=(1,0,0) (two leaves), B=(1,1,1) (four leaves), root: fail at each
-    for item in [(1, 0, 0), (1, 1, 1), (0, 0, 0)]:
-        cfgs.append(S.Walk(kind="filtered", depth=2, W=2, accepted=WALK3, fail_item=item))
-    for item in [(1, 0, 0), (1, 1, 0), (1, 0, 1), (1, 1, 1)]:
-        cfgs.append(S.VisitLeaves(kind="generic", depth=1, W=2, fail_item=item))
-    for item in [(1, 0, 0), (1, 1, 1), (0, 0, 0)]:
-        cfgs.append(S.Transform(depth=1, W=2, fail_item=item))
-    for k in range(2):
-        cfgs.append(S.MultiTan(nimg=2, W=2, fail_item=(k,)))
-        cfgs.append(S.MultiWcs(nimg=2, W=2, fail_item=(k,)))
+    for item, e in zip([(1, 0, 0), (1, 1, 1), (0, 0, 0)], EX):
+        cfgs.append(S.Walk(kind="filtered", depth=2, W=2, accepted=WALK3, fail_item=item, fail_exc=e))
+    # six tiles ready at once (> 2*workers): survivors can fill the done queue after the failure
+    cfgs.append(S.Walk(kind="filtered", depth=3, W=2, accepted=SIX_SEEDED, fail_item=(2, 0, 0)))
+    for item, e in zip([(1, 0, 0), (1, 1, 0), (1, 0, 1), (1, 1, 1)], EX + ["runtime"]):
+        cfgs.append(S.VisitLeaves(kind="generic", depth=1, W=2, fail_item=item, fail_exc=e))
+    for item, e in zip([(1, 0, 0), (1, 1, 1), (0, 0, 0)], EX):
+        cfgs.append(S.Transform(depth=1, W=2, fail_item=item, fail_exc=e))
+    for i, e in zip(range(2), ["oserror", "valueerror"]):
+        cfgs.append(S.MultiTan(nimg=2, W=2, fail_item=(i,), fail_exc=e))
+        cfgs.append(S.MultiWcs(nimg=2, W=2, fail_item=(i,), fail_exc=EX[(i + 2) % 3]))
     if tier == "thorough":
         for item in [(1, 1, 0), (1, 1, 1), (0, 0, 0)]:
-            cfgs.append(S.Walk(kind="generic", depth=2, W=2, fail_item=item))
+            cfgs.append(S.Walk(kind="generic", depth=2, W=2, fail_item=item, fail_exc=ex()))
         for item in [(1, 0, 0), (0, 0, 0)]:
-            cfgs.append(S.Walk(kind="generic", depth=2, W=3, fail_item=item))
-        cfgs.append(S.Walk(kind="filtered", depth=2, W=2, accepted=S.FILTER_5LEAVES, fail_item=(1, 1, 1)))
+            cfgs.append(S.Walk(kind="generic", depth=2, W=3, fail_item=item, fail_exc=ex()))
+        cfgs.append(S.Walk(kind="filtered", depth=2, W=2, accepted=S.FILTER_5LEAVES, fail_item=(1, 1, 1), fail_exc=ex()))
+        for item in [(2, 3, 0), (1, 0, 0), (1, 1, 0)]:
+            cfgs.append(S.Walk(kind="filtered", depth=3, W=2, accepted=SIX_SEEDED, fail_item=item, fail_exc=ex()))
         for item in [(1, 0, 0), (1, 1, 1)]:
-            cfgs.append(S.VisitLeaves(kind="generic", depth=1, W=3, fail_item=item))
-            cfgs.append(S.VisitLeaves(kind="toast", depth=1, W=2, fail_item=item))
+            for e in EX:
+                cfgs.append(S.VisitLeaves(kind="generic", depth=1, W=3, fail_item=item, fail_exc=e))
+            cfgs.append(S.VisitLeaves(kind="toast", depth=1, W=2, fail_item=item, fail_exc=ex()))
         for item in [(2, 0, 0), (2, 3, 3)]:
-            cfgs.append(S.VisitLeaves(kind="filtered", depth=2, W=2, accepted=S.FILTER_5LEAVES, fail_item=item))
-        for item in [(1, 1, 0), (1, 0, 1)]:
-            cfgs.append(S.Transform(depth=1, W=2, fail_item=item))
-        cfgs.append(S.Transform(depth=1, W=3, fail_item=(1, 0, 1)))
-        for k in range(3):
-            cfgs.append(S.MultiTan(nimg=3, W=2, fail_item=(k,)))
-        cfgs.append(S.MultiWcs(nimg=3, W=2, fail_item=(1,)))
+            cfgs.append(S.VisitLeaves(kind="filtered", depth=2, W=2, accepted=S.FILTER_5LEAVES, fail_item=item, fail_exc=ex()))
+        for item in [(1, 1, 0), (1, 0, 1), (1, 0, 0)]:
+            for e in EX:
+                cfgs.append(S.Transform(depth=1, W=2, fail_item=item, fail_exc=e))
+        cfgs.append(S.Transform(depth=1, W=3, fail_item=(1, 0, 1), fail_exc=ex()))
+        for i in range(3):
+            cfgs.append(S.MultiTan(nimg=3, W=2, fail_item=(i,), fail_exc=EX[i]))
+        for e in EX:
+            cfgs.append(S.MultiWcs(nimg=3, W=2, fail_item=(1,), fail_exc=e))
+            cfgs.append(S.MultiTan(nimg=2, W=2, fail_item=(0,), fail_exc=e))
     return cfgs
 
 
@@ -69,7 +89,7 @@ def serial_reference(cfg):
             else:
                 _serial_entry(h)
         part.violation("%s/serial-returns-normally-after-item-error" % cfg.stage, "serial %s did not raise for failing item %r" % (cfg.stage, cfg.fail_item), {"config": cfg.describe(), "serial": True})
-    except stages.InjectedFault:
+    except stages.INJECTED:
         pass
     finally:
         h.cleanup(root)
@@ -103,7 +123,7 @@ def _serial_entry(h):
             if isinstance(h, stages.MultiTan):
                 from toasty.multi_tan import MultiTanProcessor
 
-                imgs[k].__class__ = stages.failing_image_class()
+                imgs[k].__class__ = stages.failing_image_class(h.fail_exc)
                 proc = MultiTanProcessor(stages.ListCollection(imgs))
                 proc.compute_global_pixelization(Builder(pio))
                 proc.tile(pio, parallel=1)
@@ -112,7 +132,7 @@ def _serial_entry(h):
 
                 for i, im in enumerate(imgs):
                     im.asarray()[...] = float(i + 1)
-                imgs[k].asarray()[...] = -1.0
+                imgs[k].asarray()[...] = {"runtime": -1.0, "oserror": -2.0, "valueerror": -3.0}[h.fail_exc]
                 proc = MultiWcsProcessor(stages.ListCollection(imgs))
                 proc.compute_global_pixelization(Builder(pio))
                 proc.tile(pio, stages._fake_reproject, parallel=1)
